@@ -540,6 +540,10 @@ def mutate(eng, st, recv, meth, pos, kw, node):
         h = eng.registry.mutator_hook(recv.cls, meth)
         if h is not None:
             return h(eng, st, recv, pos, kw, node)
+    if isinstance(recv, OpaqueV) and recv.kind.name == "XNode":
+        from . import dom_model
+
+        return dom_model.mutate_node(eng, st, recv, meth, pos, kw, node)
     return None
 
 
@@ -598,6 +602,12 @@ def call_method(eng, st, recv: V, meth: str, pos, kw, node):
         m = eng.registry.method_for(recv.kind.name, meth)
         if m is not None:
             return m.apply(eng, st, [recv, *pos], kw, node)
+        if recv.kind.name == "XNode":
+            from . import dom_model
+
+            r = dom_model.call_node_method(eng, st, recv, meth, pos, kw, node)
+            if r is not None:
+                return r
         raise Unsupported(f"method {meth} on opaque {recv.kind!r}")
     if isinstance(recv, NoneV):
         return [(st, RaiseV("AttributeError", None, f"None.{meth} L{node.lineno}"))]
@@ -1382,6 +1392,10 @@ def model_for_object(obj):
         return _mk_exc(obj.__name__)
     if obj is _copy.copy:
         return lambda eng, st, pos, kw: [(st, clone(pos[0]))]
+    if getattr(obj, "__name__", "") == "node" and getattr(obj, "__module__", "") == "pyxform.utils":
+        from . import dom_model
+
+        return dom_model.node_model
     for name, fv in BUILTINS.items():
         if getattr_safe(_b, name) is obj:
             return fv.fn
